@@ -48,10 +48,15 @@ EXPLANATION = (
     "method, get_mutable_share_length opens the file of (storage_index, share_number); (13) UploadsInProgress keeps "
     "an upload reachable until its own BucketWriter is removed: every deletion from _uploads is dominated by an "
     "edge on which that entry's share map is empty (no wholesale clear / rebinding), remove_write_bucket deletes "
-    "only the (storage index, share number) recorded in _bucketwriters for the closing writer, add_write_bucket "
-    "stores the writer under _uploads[si].shares[n], records the reverse mapping and never overwrites an existing "
-    "entry with a fresh one, get_write_bucket returns _uploads[si].shares[n] for its own arguments, "
-    "allocate_buckets registers every (share number, writer) the backend allocated with the upload secret. "
+    "only the (storage index, share number) recorded in _bucketwriters for the closing writer, the registering "
+    "method(s) - found by role: whichever method of UploadsInProgress stores into <entry>.shares[..] / "
+    "_bucketwriters[..], per share (parameters) or batched (items of a mapping parameter), or hands its writers to "
+    "such a method - store every writer they are given under _uploads[si].shares[n] and record the reverse mapping "
+    "for the same (si, n) on every path / every iteration, no method stores a fresh StorageIndexUploads into "
+    "_uploads[k] (assignment, __setitem__, update({k: ..})) unless `k not in _uploads` holds, get_write_bucket "
+    "returns _uploads[si].shares[n] for its own arguments, allocate_buckets registers every (share number, writer) "
+    "the backend allocated (loop over the returned dict for a per-share registrar, the dict itself for a batched "
+    "one) under its storage index with the upload secret, on every path to the answer. "
     "Undecided: equivalence of results over operation histories, CBOR/base64/werkzeug value-level behaviour, "
     "timeouts and connection handling; the malformed-request guards of the server (Range / Content-Range / "
     "Authorization / secret-length checks) and the sanity checks of the client (content type, Content-Range "
@@ -59,7 +64,8 @@ EXPLANATION = (
     "invisible with a well-formed peer; which size request.content.read is asked for (min(remaining, 64KiB)); "
     "_ReadRangeProducer's internal accounting; the `required` ranges reported after a chunk (not used by the "
     "adapter); the upload-secret check of validate_upload_secret; whether the close handler that calls "
-    "remove_write_bucket is registered; the actual on-disk lease count / data length values (C31.12 compares "
+    "remove_write_bucket is registered; registering methods that fill the tables in bulk (dict.update / constructor "
+    "arguments) or enumerate writers other than by `for n, w in <param>.items()` (ANALYSIS-ERROR, not guessed); the actual on-disk lease count / data length values (C31.12 compares "
     "the formulas, not file contents); exact error statuses other than "
     "204/401/404/409/416.")
 TECHNIQUE = ("static analysis: extraction of route/request/schema tables from both sides and comparison; CFG edge facts; "
@@ -1643,9 +1649,9 @@ def run(ctx: Context):
     # ---------------------------------------------------------------- 13 ------
     with ctx.rule("C31.13", "R1", "UploadsInProgress: an in-progress share upload stays reachable for the HTTP handlers until "
                   "its own BucketWriter is removed - a storage-index entry leaves _uploads only when it has no shares left, "
-                  "remove_write_bucket drops only the closing writer's share, add_write_bucket never replaces an existing "
-                  "entry, get_write_bucket looks up (storage_index, share_number), allocate_buckets registers every "
-                  "allocated writer", expected=5) as r:
+                  "remove_write_bucket drops only the closing writer's share, the registering method(s) (found by role, per-share "
+                  "or batched) record every writer and never replace an existing entry with a fresh one, get_write_bucket "
+                  "looks up (storage_index, share_number), allocate_buckets registers every allocated writer", expected=5) as r:
         uploads_tracking(idx, r)
 
 
@@ -2312,6 +2318,13 @@ def uploads_tracking(idx, r):
                     for t in x.targets:
                         if isinstance(t, ast.Subscript) and attr_path(t.value) == top:
                             return t.slice
+                if isinstance(x, ast.Call) and isinstance(x.func, ast.Attribute) and attr_path(x.func.value) == top:
+                    if x.func.attr == "__setitem__" and len(x.args) == 2 and isinstance(x.args[1], ast.Name) and x.args[1].id == e0.id:
+                        return x.args[0]
+                    if x.func.attr == "update" and len(x.args) == 1 and isinstance(x.args[0], ast.Dict):
+                        for k, v in zip(x.args[0].keys, x.args[0].values):
+                            if k is not None and isinstance(v, ast.Name) and v.id == e0.id:
+                                return k
         return None
 
     def removals(m, fnm, sd):
@@ -2435,73 +2448,52 @@ def uploads_tracking(idx, r):
                   "get_write_bucket(%s) returns %s instead of %s[%s].%s[%s]: the chunk is written to another upload than the "
                   "direct path writes to" % (", ".join(gp), src(gw, v2), top, gp[0], wfield, gp[1]))
 
-    # -- (d) add_write_bucket records the writer and keeps the entries of the other shares --------------------------
-    aw = up.methods.get("add_write_bucket")
-    if aw is None:
-        raise AnchorVanished("UploadsInProgress.add_write_bucket")
-    ap = first_positional_params(aw)
-    if len(ap) < 4:
-        raise AnchorVanished("add_write_bucket(storage_index, share_number, upload_secret, bucket)")
-    afn, asd, acfg = FlowNorm(aw), single_defs(aw), aw.cfg()
-    r.site(aw, None, "writer recorded, existing entry kept")
+    # -- (d) the registering method(s), found by role: whoever stores into <entry>.<writer map>[..] / _bucketwriters[..] ----
+    regs_by_name = registrars(idx, r, up, siu, fields, wfield, top, back, entry_of)
 
-    def records(n):
-        a = n.ast
-        if not (n.kind == "stmt" and isinstance(a, ast.Assign)):
-            return False
-        for t in a.targets:
-            if isinstance(t, ast.Subscript) and isinstance(t.value, ast.Attribute) and t.value.attr == wfield:
-                k = entry_of(afn, asd, n, t.value.value, aw)
-                if k is not None and afn.norm(n, k) == ap[0] and afn.norm(n, t.slice) == ap[1] and afn.norm(n, a.value) == ap[3]:
-                    return True
-        return False
-
-    def back_recorded(n):
-        a = n.ast
-        if not (n.kind == "stmt" and isinstance(a, ast.Assign)):
-            return False
-        for t in a.targets:
-            if isinstance(t, ast.Subscript) and attr_path(t.value) == back and afn.norm(n, t.slice) == ap[3]:
-                v = deref(asd, a.value)
-                if isinstance(v, ast.Tuple) and [afn.norm(n, e) for e in v.elts] == [ap[0], ap[1]]:
-                    return True
-        return False
-    for (t, wt) in find_path_avoiding(acfg, is_exit, gate_node=records):
-        r.violation(aw, aw.loc(), "add_write_bucket can return without storing %s under %s[%s].%s[%s]: the allocated share "
-                    "cannot be written through HTTP (404) (path: %s)" % (ap[3], top, ap[0], wfield, ap[1], wt.brief()), wt)
-    for (t, wt) in find_path_avoiding(acfg, is_exit, gate_node=back_recorded):
-        r.violation(aw, aw.loc(), "add_write_bucket can return without recording %s[%s] = (%s, %s): remove_write_bucket "
-                    "cannot find the upload when the writer closes (path: %s)" % (back, ap[3], ap[0], ap[1], wt.brief()), wt)
+    # -- (d') nobody stores a fresh StorageIndexUploads over an entry that may exist --------------------------------------
     for m in up.methods.values():
         mfn, msd, mcfg = FlowNorm(m), single_defs(m), m.cfg()
-        for n in mcfg.nodes:
-            a = n.ast
-            if not (n.kind == "stmt" and isinstance(a, ast.Assign)):
+        for (n, what, k_ast, v_ast) in top_item_stores(m, mfn, mcfg, top):
+            v = deref(msd, v_ast)
+            if not (isinstance(v, ast.Call) and call_tail(v) == siu.name):
                 continue
-            for t in a.targets:
-                if isinstance(t, ast.Subscript) and mfn.norm(n, t.value) == top:
-                    v = deref(msd, a.value)
-                    if not (isinstance(v, ast.Call) and call_tail(v) == siu.name):
-                        continue
 
-                    def absent(g, lab, _k=t.slice, _f=mfn):
-                        f = _f.edge_fact(g, lab)
-                        return bool(f) and f[0] == "not in" and f[1] == _f.norm(g, _k) and f[2] == top
-                    for (_t, wt) in find_path_avoiding(mcfg, lambda x, _n=n: x is _n, gate_edge=absent):
-                        r.violation(m, m.loc(a), "%s stores a fresh %s under %s[%s] although an entry may exist: the uploads "
-                                    "of the other shares of that storage index are forgotten (PATCH -> 404) (path: %s)" % (
-                                        short(m), siu.name, top, src(m, t.slice), wt.brief()), wt)
+            def absent(g, lab, _k=k_ast, _f=mfn):
+                f = _f.edge_fact(g, lab)
+                return bool(f) and f[0] == "not in" and f[1] == _f.norm(g, _k) and f[2] == top
+            for (_t, wt) in find_path_avoiding(mcfg, lambda x, _n=n: x is _n, gate_edge=absent):
+                r.violation(m, m.loc(what), "%s stores a fresh %s under %s[%s] although an entry may exist: the uploads "
+                            "of the other shares of that storage index (allocated by an earlier request) are forgotten "
+                            "(PATCH -> 404) while their direct BucketWriters keep working (path: %s)" % (
+                                short(m), siu.name, top, src(m, k_ast), wt.brief()), wt)
 
     # -- (e) allocate_buckets registers every allocated writer ------------------------------------------------------
     ab = idx.func(HS + ".allocate_buckets")
     bp = first_positional_params(ab)       # request, authorization, storage_index
     bfn, bsd, bcfg = FlowNorm(ab), single_defs(ab), ab.cfg()
-    regs = [(n, c) for n in bcfg.nodes for c in calls_at(n, "add_write_bucket") if call_name(c) == "self._uploads.add_write_bucket"]
+    regs = [(n, c, regs_by_name[call_tail(c)]) for n in bcfg.nodes for c in node_calls(n)
+            if call_tail(c) in regs_by_name and isinstance(c.func, ast.Attribute) and attr_path(c.func.value) == "self._uploads"]
     r.site(ab, regs[0][1] if regs else None, "every allocated writer registered")
-    if r.require(bool(regs), ab, ab.loc(), "allocate_buckets never registers the allocated BucketWriters with self._uploads: "
-                 "no share can be written through HTTP"):
-        loops = [x for x in func_own_nodes(ab) if isinstance(x, (ast.For, ast.AsyncFor))]
-        for (n, c) in regs:
+    if not r.require(bool(regs), ab, ab.loc(), "allocate_buckets never registers the allocated BucketWriters with self._uploads "
+                     "(registering methods: %s): no share can be written through HTTP" % ", ".join(sorted(regs_by_name))):
+        return
+    want_sec = norm_src("%s[Secrets.UPLOAD]" % bp[1])
+
+    def allocated_map(e):
+        d = deref(bsd, e)
+        d0 = deref(bsd, d.value) if isinstance(d, ast.Subscript) else None
+        return isinstance(d, ast.Subscript) and isinstance(d.slice, ast.Constant) and d.slice.value == 1 \
+            and isinstance(d0, ast.Call) and call_name(d0) == "self._storage_server.allocate_buckets"
+    loops = [x for x in func_own_nodes(ab) if isinstance(x, (ast.For, ast.AsyncFor))]
+    for (n, c, reg) in regs:
+        rp_ = first_positional_params(reg.fn)
+
+        def passed(p):
+            return arg(c, rp_.index(p), p) if p in rp_ else None
+        g_si, g_sec = passed(reg.si), (passed(reg.sec) if reg.sec else None)
+        sec_ok = reg.sec is None or (g_sec is not None and bfn.norm(n, g_sec) == want_sec)
+        if reg.form == "single":
             lp = [x for x in loops if any(y is c for y in ast.walk(x))]
             ok = bool(lp)
             if ok:
@@ -2509,21 +2501,245 @@ def uploads_tracking(idx, r):
                 it, tg = lp.iter, lp.target
                 ok = isinstance(it, ast.Call) and call_tail(it) == "items" and isinstance(it.func, ast.Attribute) \
                     and isinstance(tg, ast.Tuple) and len(tg.elts) == 2 and all(isinstance(e, ast.Name) for e in tg.elts)
-            if ok:
-                d = deref(bsd, it.func.value)
-                d0 = deref(bsd, d.value) if isinstance(d, ast.Subscript) else None
-                ok = isinstance(d, ast.Subscript) and isinstance(d.slice, ast.Constant) and d.slice.value == 1 \
-                    and isinstance(d0, ast.Call) and call_name(d0) == "self._storage_server.allocate_buckets"
+            ok = ok and allocated_map(it.func.value)
             if not r.require(ok, ab, ab.loc(c), "the BucketWriters are not registered for every (share number, writer) of the "
                              "dict self._storage_server.allocate_buckets returned"):
                 continue
-            got = [arg(c, i, p) for i, p in enumerate(ap[:4])]
-            ok = all(g is not None for g in got) and bfn.norm(n, got[0]) == bp[2] \
-                and isinstance(got[1], ast.Name) and got[1].id == tg.elts[0].id \
-                and bfn.norm(n, got[2]) == norm_src("%s[Secrets.UPLOAD]" % bp[1]) \
-                and isinstance(got[3], ast.Name) and got[3].id == tg.elts[1].id
+            g_s, g_w = passed(reg.s), passed(reg.w)
+            ok = g_si is not None and bfn.norm(n, g_si) == bp[2] and sec_ok \
+                and isinstance(g_s, ast.Name) and g_s.id == tg.elts[0].id \
+                and isinstance(g_w, ast.Name) and g_w.id == tg.elts[1].id
             r.require(ok, ab, ab.loc(c), "allocate_buckets registers %s; expected (%s, <share number>, %s[Secrets.UPLOAD], "
                       "<its writer>)" % (src(ab, c), bp[2], bp[1]))
-            for (_t, wt) in find_path_avoiding(bcfg, is_exit, gate_node=lambda g, _l=lp: g.kind == "iter" and g.ast is _l):
-                r.violation(ab, ab.loc(c), "allocate_buckets can answer without registering the allocated writers "
-                            "(path: %s)" % wt.brief(), wt)
+            gate = lambda g, _l=lp: g.kind == "iter" and g.ast is _l
+        else:
+            g_coll = passed(reg.coll)
+            ok = g_si is not None and bfn.norm(n, g_si) == bp[2] and sec_ok and g_coll is not None and allocated_map(g_coll)
+            if not r.require(ok, ab, ab.loc(c), "allocate_buckets registers %s; expected %s(%s=%s, %s=<the dict of writers "
+                             "self._storage_server.allocate_buckets returned>%s)" % (
+                                 src(ab, c), reg.fn.name, reg.si, bp[2], reg.coll,
+                                 ", %s=%s[Secrets.UPLOAD]" % (reg.sec, bp[1]) if reg.sec else "")):
+                continue
+            gate = lambda g, _n=n: g is _n
+        for (_t, wt) in find_path_avoiding(bcfg, is_exit, gate_node=gate):
+            r.violation(ab, ab.loc(c), "allocate_buckets can answer without registering the allocated writers "
+                        "(path: %s)" % wt.brief(), wt)
+
+
+class Registrar:
+    """A method of UploadsInProgress that makes BucketWriters findable: form 'single' registers (si, s, w) given as
+    parameters, form 'batch' registers every (share number, writer) item of the mapping parameter `coll`."""
+
+    def __init__(self, fn, form, si, sec, s=None, w=None, coll=None):
+        self.fn, self.form, self.si, self.sec, self.s, self.w, self.coll = fn, form, si, sec, s, w, coll
+
+
+def top_item_stores(m, fnm, cfg, top):
+    """(node, construct, key ast, value ast) for every per-key store into the dict `top` in method m: `top[k] = v`,
+    `top.__setitem__(k, v)`, `top.update({k: v})`.  An update with anything else cannot be decided."""
+    out = []
+    for n in cfg.nodes:
+        a = n.ast
+        if n.kind == "stmt" and isinstance(a, (ast.Assign, ast.AnnAssign)) and a.value is not None:
+            for t in (a.targets if isinstance(a, ast.Assign) else [a.target]):
+                if isinstance(t, ast.Subscript) and fnm.norm(n, t.value) == top:
+                    out.append((n, a, t.slice, a.value))
+        for c in node_calls(n):
+            if not (isinstance(c.func, ast.Attribute) and fnm.norm(n, c.func.value) == top):
+                continue
+            if c.func.attr == "__setitem__" and len(c.args) == 2:
+                out.append((n, c, c.args[0], c.args[1]))
+            elif c.func.attr == "update":
+                if len(c.args) == 1 and not c.keywords and isinstance(c.args[0], ast.Dict) and None not in c.args[0].keys:
+                    for k, v in zip(c.args[0].keys, c.args[0].values):
+                        out.append((n, c, k, v))
+                else:
+                    raise AnalysisError("%s updates %s with %s: cannot decide whether existing upload entries survive" % (
+                        short(m), top, src(m, c)))
+    return out
+
+
+def items_loop_binding(m, fnm, s, w):
+    """s, w are the (key, value) targets of one `for s, w in <P>.items()` of method m, P a parameter -> (loop, P)."""
+    ps = set(first_positional_params(m))
+    defs = all_defs(m)
+    for lp in func_own_nodes(m):
+        if not isinstance(lp, (ast.For, ast.AsyncFor)):
+            continue
+        tg, it = lp.target, lp.iter
+        if isinstance(tg, ast.Tuple) and len(tg.elts) == 2 and all(isinstance(e, ast.Name) for e in tg.elts) \
+                and [e.id for e in tg.elts] == [s, w] and isinstance(it, ast.Call) and call_tail(it) == "items" \
+                and not it.args and isinstance(it.func, ast.Attribute):
+            heads = [x for x in m.cfg().nodes if x.kind == "iter" and x.ast is lp]
+            if not heads:
+                continue
+            p = fnm.norm(heads[0], it.func.value)
+            if p in ps and defs.get(s) == [None] and defs.get(w) == [None]:
+                return lp, heads[0], p
+    return None
+
+
+def registrars(idx, r, up, siu, fields, wfield, top, back, entry_of):
+    """Find the registering methods of UploadsInProgress by what they do and decide, for each, that every writer it is
+    given ends up under _uploads[si].<writer map>[s] with the reverse mapping _bucketwriters[w] = (si, s).
+    -> {method name: Registrar}."""
+    found = {}
+
+    def ident(s):
+        return isinstance(s, str) and re.match(r"^[A-Za-z_]\w*$", s) is not None
+
+    def decide(m, fnm, cfg, triple, sec, wgate, bgate, what):
+        """Common part: how (si, s, w) are bound (parameters / items of a mapping parameter) and must-execute."""
+        si, s, w = triple
+        ps = first_positional_params(m)
+        if not (ident(si) and si in ps):
+            r.violation(m, m.loc(), "%s files the writers under %s[%s]: not a storage index it was given, so get_write_bucket("
+                        "storage_index, ..) cannot find them (404)" % (short(m), top, si))
+            return None
+        sec = sec if sec in ps else None
+        if s in ps and w in ps:
+            for gate, msg in ((wgate, "storing %s under %s[%s].%s[%s]: the allocated share cannot be written through HTTP (404)" % (
+                    w, top, si, wfield, s)),
+                    (bgate, "recording %s[%s] = (%s, %s): remove_write_bucket cannot find the upload when the writer closes" % (
+                        back, w, si, s))):
+                for (_t, wt) in find_path_avoiding(cfg, is_exit, gate_node=gate):
+                    r.violation(m, m.loc(), "%s can return without %s (path: %s)" % (m.name, msg, wt.brief()), wt)
+            return Registrar(m, "single", si, sec, s=s, w=w)
+        lb = items_loop_binding(m, fnm, s, w) if ident(s) and ident(w) else None
+        if lb is None:
+            raise AnalysisError("%s registers (%s, %s) [%s]: neither its parameters nor the items of a mapping parameter - "
+                                "cannot decide which writers it registers" % (short(m), s, w, what))
+        lp, head, coll = lb
+
+        def empty(g, lab, _c=coll):
+            f = fnm.edge_fact(g, lab)
+            return bool(f) and ((f[0] == "false" and f[1] == _c) or (f[0] == "==" and {f[1], f[2]} == {"0", "len(%s)" % _c}))
+        for (_t, wt) in find_path_avoiding(cfg, is_exit, gate_node=lambda g: g is head, gate_edge=empty):
+            r.violation(m, m.loc(), "%s can return without going through the writers in %s (path: %s)" % (m.name, coll, wt.brief()), wt)
+
+        def tr(n, lab, nxt, st):
+            if n is head:
+                return (False, False) if (st == "start" and lab == "iter") else None
+            if lab == "exc":
+                return None
+            return (st[0] or wgate(n), st[1] or bgate(n))
+        vis, par = explore(cfg, "start", tr, start=head)
+        for (nid, st) in sorted(vis, key=lambda x: (x[0], str(x[1]))):
+            if st == "start":
+                continue
+            if nid == head.id and st != (True, True):
+                miss = [] if st[0] else ["storing it under %s[%s].%s[%s] (PATCH -> 404)" % (top, si, wfield, s)]
+                miss += [] if st[1] else ["recording %s[%s] = (%s, %s) (remove_write_bucket cannot find it)" % (back, w, si, s)]
+                r.violation(m, m.loc(lp), "%s can finish with a writer of %s without %s (path: %s)" % (
+                    m.name, coll, " and without ".join(miss), witness(cfg, par, (nid, st)).brief()), witness(cfg, par, (nid, st)))
+            elif nid == cfg.exit.id:
+                r.violation(m, m.loc(lp), "%s can leave the loop over %s early: the remaining allocated writers are never "
+                            "registered (PATCH -> 404) (path: %s)" % (m.name, coll, witness(cfg, par, (nid, st)).brief()),
+                            witness(cfg, par, (nid, st)))
+        return Registrar(m, "batch", si, sec, coll=coll)
+
+    # ---- direct registrars: methods with the stores themselves
+    for m in up.methods.values():
+        fnm, sd, cfg = FlowNorm(m), single_defs(m), m.cfg()
+        wst, bst, sst, opaque = [], [], [], []
+        for n in cfg.nodes:
+            a = n.ast
+            for c in node_calls(n):
+                if isinstance(c.func, ast.Attribute) and c.func.attr in ("update", "__setitem__", "setdefault"):
+                    recv = c.func.value
+                    if attr_path(recv) == back or (isinstance(recv, ast.Attribute) and recv.attr == wfield
+                                                   and entry_of(fnm, sd, n, recv.value, m) is not None):
+                        opaque.append(c)
+                if call_tail(c) == siu.name and (c.args or c.keywords):
+                    opaque.append(c)
+            if not (n.kind == "stmt" and isinstance(a, ast.Assign)):
+                continue
+            for t in a.targets:
+                if not isinstance(t, ast.Subscript):
+                    continue
+                if isinstance(t.value, ast.Attribute) and t.value.attr in fields:
+                    k = entry_of(fnm, sd, n, t.value.value, m)
+                    if k is None:
+                        continue
+                    row = (n, fnm.norm(n, k), fnm.norm(n, t.slice), fnm.norm(n, a.value))
+                    (wst if t.value.attr == wfield else sst).append(row)
+                elif attr_path(t.value) == back:
+                    v = deref(sd, a.value)
+                    if isinstance(v, ast.Tuple) and len(v.elts) == 2:
+                        bst.append((n, fnm.norm(n, v.elts[0]), fnm.norm(n, v.elts[1]), fnm.norm(n, t.slice)))
+                    else:
+                        bst.append((n, None, None, fnm.norm(n, t.slice)))
+        if opaque and (wst or bst or any(call_tail(c) != siu.name for c in opaque)):
+            raise AnalysisError("%s fills the upload tables through %s: cannot decide which writers it registers" % (
+                short(m), "; ".join(src(m, c) for c in opaque)))
+        if not wst and not bst:
+            continue
+        r.site(m, (wst or bst)[0][0].ast, "writer recorded (found by role: stores into %s / %s)" % (wfield, back))
+        if not wst:
+            r.violation(m, m.loc(), "%s records writers in %s but never stores them under %s[..].%s[..]: the allocated shares "
+                        "cannot be written through HTTP (404)" % (short(m), back, top, wfield))
+            continue
+        if not bst:
+            r.violation(m, m.loc(), "%s stores writers under %s[..].%s[..] but never records %s[writer] = (storage index, share "
+                        "number): remove_write_bucket cannot find the upload when the writer closes" % (short(m), top, wfield, back))
+            continue
+        common = sorted({x[1:] for x in wst} & {x[1:] for x in bst})
+        if not common:
+            r.violation(m, m.loc(bst[0][0].ast), "%s stores %s but records %s: the reverse mapping remove_write_bucket uses does not "
+                        "name the (storage index, share number) the writer is filed under, so closing it drops another upload "
+                        "or none" % (short(m), "; ".join("%s[%s].%s[%s] = %s" % (top, a_, wfield, b_, c_) for (_n, a_, b_, c_) in wst),
+                                     "; ".join("%s[%s] = (%s, %s)" % (back, c_, a_, b_) for (_n, a_, b_, c_) in bst)))
+            continue
+        for triple in common:
+            wn = {x[0].id for x in wst if x[1:] == triple}
+            bn = {x[0].id for x in bst if x[1:] == triple}
+            secs = {x[3] for x in sst if x[1:3] == triple[:2]}
+            reg = decide(m, fnm, cfg, triple, secs.pop() if len(secs) == 1 else None,
+                         lambda g, _s=wn: g.id in _s, lambda g, _s=bn: g.id in _s, "stores")
+            if reg is not None:
+                found[m.name] = reg
+
+    # ---- wrappers: methods that hand their writers to a registrar of the same object
+    for _round in range(3):
+        grew = False
+        for m in up.methods.values():
+            if m.name in found:
+                continue
+            fnm, cfg = FlowNorm(m), m.cfg()
+            for n in cfg.nodes:
+                for c in node_calls(n):
+                    if not (call_tail(c) in found and isinstance(c.func, ast.Attribute) and attr_path(c.func.value) == "self"):
+                        continue
+                    inner = found[call_tail(c)]
+                    ip = first_positional_params(inner.fn)
+
+                    def passed(p):
+                        a = arg(c, ip.index(p), p) if p in ip else None
+                        return fnm.norm(n, a) if a is not None else None
+                    gate = lambda g, _n=n: g is _n
+                    sec = passed(inner.sec) if inner.sec else None
+                    if inner.form == "single":
+                        reg = decide(m, fnm, cfg, (passed(inner.si), passed(inner.s), passed(inner.w)), sec, gate, gate,
+                                     "call of %s" % inner.fn.name)
+                    else:
+                        si, coll = passed(inner.si), passed(inner.coll)
+                        ps = first_positional_params(m)
+                        if not (si in ps and coll in ps):
+                            raise AnalysisError("%s hands (%s, %s) to %s: cannot decide which writers it registers" % (
+                                short(m), si, coll, inner.fn.name))
+                        for (_t, wt) in find_path_avoiding(cfg, is_exit, gate_node=gate):
+                            r.violation(m, m.loc(), "%s can return without handing %s to %s (path: %s)" % (
+                                m.name, coll, inner.fn.name, wt.brief()), wt)
+                        reg = Registrar(m, "batch", si, sec if sec in ps else None, coll=coll)
+                    if reg is not None:
+                        r.site(m, c, "writer recorded (through %s)" % inner.fn.name)
+                        found[m.name] = reg
+                        grew = True
+                    break
+                if m.name in found:
+                    break
+        if not grew:
+            break
+    if not found:
+        raise AnchorVanished("no method of UploadsInProgress stores a BucketWriter under %s[..].%s[..] / %s[..]" % (top, wfield, back))
+    return found
